@@ -214,6 +214,11 @@ func (runInfo *runInfoStruct) callExpr() {
 
 	runInfo.rv = nilValue
 
+	if callExpr.Go {
+		// the goroutine starts later: its arguments are the values of this moment
+		ownArgs(args, isRunVMFunction)
+	}
+
 	// useCallSlice lets us know to use CallSlice instead of Call because of the format of the args
 	if useCallSlice {
 		if callExpr.Go {
@@ -303,6 +308,7 @@ func (runInfo *runInfoStruct) callVMFunctionDirect(f reflect.Value, callExpr *as
 	if callExpr.Go {
 		// a copy, so that the argument buffer of the fast path stays on the stack
 		ctx, debug, a := runInfo.ctx, runInfo.options.Debug, append([]reflect.Value(nil), args...)
+		ownArgs(a, false)
 		switch {
 		case fn0 != nil:
 			go goCall(debug, func() { fn0(ctx) })
@@ -654,4 +660,19 @@ func processCallReturnValues(rvs []reflect.Value, isRunVMFunction bool, convertT
 	}
 	// convert to error
 	return nilValue, rvError.Interface().(error)
+}
+
+// ownArgs makes the arguments of a call that runs later (a go statement) values
+// of their own: an argument that still refers to a slice element or struct
+// field would otherwise be read when the goroutine gets to it.
+func ownArgs(args []reflect.Value, isRunVMFunction bool) {
+	for i, arg := range args {
+		if isRunVMFunction && arg.IsValid() && arg.Type() == reflectValueType {
+			if inner, ok := arg.Interface().(reflect.Value); ok && inner.IsValid() && inner.CanAddr() {
+				args[i] = reflect.ValueOf(ownValue(inner))
+			}
+			continue
+		}
+		args[i] = ownValue(arg)
+	}
 }
